@@ -271,32 +271,49 @@ def db_lines_for(query_lines):
     return lines
 
 
-def run_driver(lines, header=(), chunk=400, chunk_timeout=90):
-    """Run the model driver on `lines` in chunks with a time limit per chunk; a chunk
-    that does not finish is bisected, and a single line that does not finish is
-    answered `MODEL-TIMEOUT` (the model is executable but not resource-bounded)."""
+def run_driver(lines, header=(), chunk=5000, line_timeout=10):
+    """Run the model driver on `lines`. The driver answers (and flushes) one line per
+    request, so a request that does not finish within `line_timeout` seconds is identified
+    directly: it is answered `MODEL-TIMEOUT` (the model is executable but not
+    resource-bounded; a driver that dies, e.g. of stack exhaustion, is treated alike) and
+    the run resumes with the next request."""
+    import select
+    import tempfile
     header = list(header)
     out = []
-
-    def go(part):
-        if not part:
-            return []
-        try:
-            p = subprocess.run([driver_bin()], input="\n".join(header + part) + "\n", capture_output=True,
-                               text=True, timeout=chunk_timeout + (5 if len(part) > 1 else 0))
-            res = p.stdout.split("\n")
-            if res and res[-1] == "":
-                res.pop()
-            res = res[len(header):]
-            if len(res) == len(part):
-                return res
-        except subprocess.TimeoutExpired:
-            pass
-        if len(part) == 1:
-            return ["MODEL-TIMEOUT"]
-        mid = len(part) // 2
-        return go(part[:mid]) + go(part[mid:])
-
-    for i in range(0, len(lines), chunk):
-        out.extend(go(lines[i:i + chunk]))
+    i, n = 0, len(lines)
+    while i < n:
+        part = lines[i:i + chunk]
+        with tempfile.TemporaryFile("w+") as f:
+            f.write("\n".join(header + part) + "\n")
+            f.flush()
+            f.seek(0)
+            p = subprocess.Popen([driver_bin()], stdin=f, stdout=subprocess.PIPE)
+        got, buf, last = [], b"", time.time()
+        need = len(header) + len(part)
+        fd = p.stdout.fileno()
+        while len(got) < need:
+            left = line_timeout - (time.time() - last)
+            if left <= 0:
+                break
+            r, _, _ = select.select([fd], [], [], min(left, 1.0))
+            if not r:
+                continue
+            data = os.read(fd, 1 << 16)
+            if not data:
+                break
+            buf += data
+            *ls, buf = buf.split(b"\n")
+            if ls:
+                got += [l.decode("utf-8", "replace") for l in ls]
+                last = time.time()
+        p.kill()
+        p.wait()
+        ans = got[len(header):][:len(part)]
+        out += ans
+        if len(ans) < len(part):
+            out.append("MODEL-TIMEOUT")
+            i += len(ans) + 1
+        else:
+            i += len(part)
     return out
